@@ -61,15 +61,30 @@ def main():
 
 
 def coqchk():
-    """coqchk -o on every compiled property file (independent re-check of the .vo files and everything
-    they depend on; prints the axioms of every loaded library).  Output kept in evidence/coqchk.txt."""
-    import re
+    """coqchk -o on every compiled property file (independent re-check of the .vo files and everything they
+    depend on; prints the axioms of every loaded library).  Output kept in evidence/coqchk.txt.
+    Properties/C17 is checked in a process of its own, in parallel: coqchk re-evaluates the vm_compute proofs of the
+    ~130 generated effect programs with its own (slow) reduction machine, which takes 45-60 minutes."""
+    import subprocess
+    regenerate()
+    ok_all, log = core.coq_make()
     pdir = os.path.join(core.COQ, "theories", "Properties")
     mods = sorted("Catii.Properties." + f[:-3] for f in os.listdir(pdir) if f.endswith(".vo"))
+    groups = [[m for m in mods if not m.endswith(".C17")], [m for m in mods if m.endswith(".C17")]]
     t0 = time.time()
-    rc, out = core.sh("timeout 3000 coqchk -silent -o -R theories Catii " + " ".join(mods), cwd=core.COQ, timeout=3100)
-    tail = out[-6000:]
+    procs = []
+    for g in groups:
+        if g:
+            cmd = "timeout 9000 coqchk -silent -o -R theories Catii " + " ".join(g)
+            procs.append((g, subprocess.Popen(cmd, shell=True, cwd=core.COQ, stdout=subprocess.PIPE, stderr=subprocess.STDOUT, text=True), time.time()))
+    rc_all = 0
+    chunks = []
+    for g, pr, ts in procs:
+        out, _ = pr.communicate()
+        rc_all |= pr.returncode
+        chunks.append("# coqchk -silent -o -R theories Catii %s\n# rc=%d wall=%.0fs\n%s\n" % (" ".join(g), pr.returncode, time.time() - ts, out[-3000:]))
     with open(os.path.join(core.VERIF, "evidence", "coqchk.txt"), "w") as f:
-        f.write("# coqchk -o -R theories Catii %s\n# rc=%d wall=%.0fs\n%s\n" % (" ".join(mods), rc, time.time() - t0, tail))
-    print(tail)
-    return rc
+        f.write("# independent re-check of the compiled property files (Coq 8.16.1 coqchk); total wall %.0fs\n" % (time.time() - t0))
+        f.write("\n".join(chunks))
+    print("\n".join(chunks)[-4000:])
+    return rc_all
